@@ -77,6 +77,26 @@ def job_kernel(job, seed):
     cands = []
     tag = f'{kname}[{",".join(dtypes)};{angle_unit};{shapes}]'
     case = {'kind': 'kernel', 'kernel': kname, 'dtypes': list(dtypes), 'angle_unit': angle_unit, 'shapes': [str(s) for s in shapes]}
+    if len(paths) > 1 and all(p.exc is None and not p.inconclusive for p in paths):
+        # the implementation dispatches on its input: on every path the result must still be the documented value
+        # (a path that answers NaN / inf for a valid input, or another formula, is a violation under its path condition)
+        o = _ops()
+        for k_, p in enumerate(paths):
+            outp = p.value
+            for idx in np.ndindex(outp.shape):
+                im = dict(zip(outp.dims, idx, strict=True))
+                v = outp.values[idx]
+                if getattr(v, 'special', None):
+                    goal = C.FALSE
+                else:
+                    with C.oracle():
+                        args_si = {a: _si(v_, {d: im[d] for d in v_.dims}) for a, v_ in kwargs.items()}
+                        goal = v * C.R(outp.unit.scale_rat()) == oracle(o, **args_si)
+                ob = C.prove(f'{tag}:path{k_}:value{list(idx)} = documented formula (finite)', goal, pc=p.pc)
+                obs.append(ob_dict(ob))
+                if ob.status == 'violated':
+                    cands.append((f'C01:{kname}:value', {**case, 'dispatch': True}, f'a code path returns {"a non-finite value" if getattr(v, "special", None) else "another value"} for a valid input'))
+        return {'obligations': obs, 'candidates': cands, 'paths': len(paths)}
     if len(paths) != 1 or paths[0].exc is not None or paths[0].inconclusive:
         p = paths[0]
         if p.inconclusive:
@@ -376,6 +396,9 @@ def replay_real(case):
         lo, hi = {'time': (1e-6, 1e-1), 'length': (1.0, 150.0), 'energy': (1.6e-23, 1.6e-20), 'wavelength': (1e-11, 2e-9),
                   'invlength': (1e8, 1e11), 'angle': (0.01, 3.1)}[kind]
         x_si = np.exp(rng.uniform(np.log(lo), np.log(hi), size=n or 1))
+        if kind == 'angle' and (n or 1) >= 8 and not dtype.startswith('int'):
+            # the ends of the domain (0, pi]: tiny scattering angles and back-scattering
+            x_si[:6] = [1e-9, 2e-8, 1e-6, 1e-4, 3.14159, 3.141592653]
         scale = float(si_scale(unit))
         vals = x_si / scale
         if dtype.startswith('int'):
@@ -397,6 +420,8 @@ def replay_real(case):
                     x = mp.mpf(float(vv[i if len(vv) > 1 else 0]))
                 args[a] = x * si_scale(str(v.unit))
             expect = oracle(o, **args)
+            if not np.isfinite(float(outv[i])):
+                return mp.inf  # NaN / inf for a valid input
             got = mp.mpf(float(outv[i])) * si_scale(str(out.unit))
             worst = max(worst, abs(got - expect) / abs(expect))
         return worst
